@@ -670,3 +670,382 @@ Proof.
   destruct (Nat.eqb_spec n max_nesting) as [->|Hne]; [apply T_fail|].
   apply expr_tiers; [apply er_evaluate_expression | apply IH; lia | lia].
 Qed.
+
+(* ------------------------------------------------------------------ *)
+(* 6. statements *)
+
+(* moving the cursor along its line keeps a state well-formed *)
+Definition WK (s s' : interp) : Prop :=
+  st_toks s' = st_toks s /\ st_keys s' = st_keys s /\ loc_line (loc s') = loc_line (loc s)
+  /\ breakpoint s' = breakpoint s /\ stack s' = stack s /\ loops s' = loops s
+  /\ functions s' = functions s /\ data_it s' = data_it s /\ arrays s' = arrays s /\ immediate s' = immediate s.
+
+Lemma WK_preorder : preorder WK.
+Proof.
+  split; unfold WK.
+  - intros s. repeat split.
+  - intros a b c (A1 & A2 & A3 & A4 & A5 & A6 & A7 & A8 & A9 & A10) (B1 & B2 & B3 & B4 & B5 & B6 & B7 & B8 & B9 & B10).
+    repeat split; congruence.
+Qed.
+
+Lemma WK_wf s s' : WK s s' -> wf s -> wf s' /\ lim s' = lim s.
+Proof.
+  intros (A1 & A2 & A3 & A4 & A5 & A6 & A7 & A8 & A9 & A10) [W1 W2 W3 W4 W5 W6 W7 W8]. split.
+  - split; unfold line_exists, store_ok in *; rewrite ?A1, ?A2, ?A3, ?A4, ?A5, ?A6, ?A7, ?A8, ?A9; assumption.
+  - unfold lim. rewrite A1, A10. reflexivity.
+Qed.
+
+Lemma wk_tokens_for_line l : mrel WK (tokens_for_line l).
+Proof.
+  intros s. unfold tokens_for_line. destruct l as [n|]; [destruct (toks_get n (st_toks s))|]; apply (po_refl _ WK_preorder).
+Qed.
+
+Ltac wk_leaf :=
+  first [ apply wk_tokens_for_line
+        | apply (mrel_modify WK); intros; unfold WK; repeat split; reflexivity ].
+
+Lemma wk_rewind_loop i t : mrel WK (rewind_loop i t).
+Proof.
+  induction i as [|i IH]; cbn [rewind_loop]; autounfold with prims;
+    mrel_walk WK_preorder ltac:(first [apply IH | wk_leaf]).
+Qed.
+
+Lemma wk_await : mrel WK rewind_program_and_await_input.
+Proof.
+  unfold rewind_program_and_await_input. autounfold with prims.
+  mrel_walk WK_preorder ltac:(first [apply wk_rewind_loop | wk_leaf]).
+Qed.
+
+Lemma T_await g : T g rewind_program_and_await_input.
+Proof.
+  intros s Hwf Hg. split; [apply nofR_await|]. intros a _.
+  destruct (WK_wf _ _ (wk_await s) Hwf) as [H1 H2]. split; [exact H1 | lia].
+Qed.
+
+Lemma T_discard g : T g discard_remaining_tokens.
+Proof. T_prim_leaf. Qed.
+
+Section StmtT.
+  Variable fuel nest g : nat.
+  Variable rec : M unit.
+  Hypothesis HT : T g rec.
+  Hypothesis Hg : g < fuel.
+  Hypothesis Hex : T g (expr fuel nest).
+
+  Lemma er_expr' : orel ERw (expr fuel nest).
+  Proof. apply er_evaluate_expression. Qed.
+  Lemma consumes_expr : consumes (expr fuel nest).
+  Proof. apply consumes_evaluate_expression. Qed.
+
+  Ltac leaf := first [ exact Hex | exact HT | apply T_await | apply T_discard ].
+
+  Lemma T_st_array_index : T g (evaluate_array_index fuel (expr fuel nest)).
+  Proof. apply T_array_index; [apply er_expr' | exact Hex | exact Hg]. Qed.
+
+  Lemma T_optional_index : T g (parse_optional_array_index fuel nest).
+  Proof. unfold parse_optional_array_index; T_walk ltac:(first [apply T_st_array_index | leaf]). Qed.
+
+  Lemma T_parse_lvalue : T g (parse_lvalue fuel nest).
+  Proof. unfold parse_lvalue; T_walk ltac:(first [apply T_optional_index | leaf]). Qed.
+
+  Lemma T_assign lv v : T g (assign_value lv v).
+  Proof. unfold assign_value; T_walk leaf. Qed.
+
+  Lemma T_goto_stmt : T g evaluate_goto_statement.
+  Proof. unfold evaluate_goto_statement; T_walk leaf. Qed.
+  Lemma T_gosub_stmt : T g evaluate_gosub_statement.
+  Proof. unfold evaluate_gosub_statement; T_walk leaf. Qed.
+  Lemma T_stmt_or_goto : T g (statement_or_goto_line_number rec).
+  Proof. unfold statement_or_goto_line_number; T_walk ltac:(first [apply T_goto_stmt | leaf]). Qed.
+
+  Lemma T_assignment sym : T g (evaluate_assignment_statement fuel nest sym).
+  Proof. unfold evaluate_assignment_statement; T_walk ltac:(first [apply T_optional_index | apply T_assign | leaf]). Qed.
+  Lemma T_let : T g (evaluate_let_statement fuel nest).
+  Proof. unfold evaluate_let_statement; T_walk ltac:(first [apply T_assignment | leaf]). Qed.
+  Lemma T_dim : T g (evaluate_dim_statement fuel nest).
+  Proof. unfold evaluate_dim_statement; T_walk ltac:(first [apply T_parse_lvalue | leaf]). Qed.
+  Lemma T_for : T g (evaluate_for_statement fuel nest).
+  Proof. unfold evaluate_for_statement; T_walk leaf. Qed.
+  Lemma T_next_stmt : T g evaluate_next_statement.
+  Proof. unfold evaluate_next_statement; T_walk leaf. Qed.
+  Lemma T_break : T g break_at_current_location.
+  Proof. apply T_prim; [apply nofR_break | apply sr_break | apply imm_break]. Qed.
+
+  Lemma T_raw_err {A} e l : T g (fun s : interp => (@Err A e l, s)).
+  Proof. intros s Hwf Hl. split; [discriminate|]. intros a H; discriminate. Qed.
+
+  Lemma T_take_input : T g take_input.
+  Proof. apply T_prim; [apply nofR_take_input | apply sr_of_er, er_take_input | apply imm_take_input]. Qed.
+
+  Lemma T_input : T g (evaluate_input_statement fuel nest).
+  Proof.
+    unfold evaluate_input_statement;
+      T_walk ltac:(first [apply T_take_input | apply T_parse_lvalue | apply T_assign | apply T_raw_err | leaf]).
+  Qed.
+
+  (* IF: the scan for ELSE consumes a token per iteration *)
+  Lemma room_bump s : room (bump s) = room s.
+  Proof. reflexivity. Qed.
+
+  Lemma next_token_some s t s' : wf s -> next_token s = (Ok (Some t), s') -> wf s' /\ room s' < room s /\ cur_toks s' = cur_toks s.
+  Proof.
+    intros Hwf E. rewrite (next_token_w s Hwf) in E.
+    destruct (nth_error (cur_toks s) (loc_idx (loc s))) as [t0|] eqn:En; inversion E; subst.
+    split; [apply wf_set_loc; [revert Hwf; apply wf_ext; reflexivity | exact (wf_loc _ Hwf)]|].
+    split; [apply (room_step s _ En) | reflexivity].
+  Qed.
+
+  Lemma T_if : T g (evaluate_if_statement fuel nest rec).
+  Proof.
+    unfold evaluate_if_statement.
+    apply T_bind; [exact Hex | intros c]. apply T_bind; [T_prim_leaf | intros _].
+    destruct (to_bool c); [T_walk ltac:(first [apply T_stmt_or_goto | leaf])|].
+    apply T_loop; [exact Hg | intro; T_walk ltac:(first [apply T_stmt_or_goto | leaf]) |].
+    intros u s u' s' Hwf E.
+    destruct (bind_ok_inv _ _ _ _ _ E) as (t & s1 & E1 & E2).
+    destruct t as [t|]; [|inversion E2].
+    destruct (next_token_some s t s1 Hwf E1) as (Hwf1 & R1 & _).
+    destruct t; try (inversion E2; subst; exact R1).
+    - (* colon: the rest of the line is discarded *)
+      destruct (bind_ok_inv _ _ _ _ _ E2) as (x & s2 & E3 & E4). inversion E4; subst.
+      unfold discard_remaining_tokens in E3. rewrite Safety.bind_run, (cur_tokens_eq s1 (wf_loc _ Hwf1)) in E3.
+      unfold modify in E3. inversion E3; subst. unfold room at 1. cbn [loc set_loc loc_idx].
+      change (cur_toks (set_loc _ s1)) with (cur_toks s1). lia.
+    - (* ELSE: the loop ends *)
+      destruct (bind_ok_inv _ _ _ _ _ E2) as (x & s2 & E3 & E4). inversion E4.
+  Qed.
+
+  Lemma room_next_data s : room (snd (next_data_element s)) = room s /\ (forall e s', next_data_element s = (Ok e, s') -> wf s -> wf s').
+  Proof.
+    split.
+    - unfold next_data_element. destruct (data_it s) as [d|].
+      + destruct (data_next _ d); reflexivity.
+      + destruct (data_chunks (st_keys s) (st_toks s)); try reflexivity. destruct (data_next _ _); reflexivity.
+    - intros e s' E Hwf. pose proof (sr_next_data s Hwf) as H. rewrite E in H. apply H.
+  Qed.
+
+  Lemma T_read : T g (evaluate_read_statement fuel nest).
+  Proof.
+    unfold evaluate_read_statement.
+    apply T_loop; [exact Hg | intro; T_walk ltac:(first [apply T_parse_lvalue | apply T_assign | leaf]) |].
+    intros u s u' s' Hwf E.
+    destruct (bind_ok_inv _ _ _ _ _ E) as (lv & s1 & E1 & E2).
+    (* the target: at least its name is consumed *)
+    assert (H1 : wf s1 /\ room s1 < room s).
+    { unfold parse_lvalue in E1. destruct (bind_ok_inv _ _ _ _ _ E1) as (t & s0 & F1 & F2).
+      destruct t as [t|]; [|inversion F2]. destruct t; try (inversion F2).
+      destruct (next_token_some s _ s0 Hwf F1) as (Hwf0 & R0 & _).
+      destruct (bind_ok_inv _ _ _ _ _ F2) as (idx & s0' & F3 & F4). inversion F4; subst.
+      assert (Her : orel ERw (parse_optional_array_index fuel nest)) by (apply er_optional_index).
+      destruct (er_ok _ _ _ _ Her Hwf0 F3) as (W & _). pose proof (er_room _ _ _ _ Her Hwf0 F3). split; [exact W | lia]. }
+    destruct H1 as [Hwf1 R1].
+    destruct (bind_ok_inv _ _ _ _ _ E2) as (e & s2 & E3 & E4).
+    destruct (room_next_data s1) as [R2 W2]. rewrite E3 in R2. cbn [snd] in R2.
+    pose proof (W2 e s2 E3 Hwf1) as Hwf2.
+    destruct e as [e|]; [|inversion E4].
+    destruct (bind_ok_inv _ _ _ _ _ E4) as (v & s3 & E5 & E6).
+    unfold lift_res in E5. inversion E5; subst s3.
+    destruct (bind_ok_inv _ _ _ _ _ E6) as (x & s4 & E7 & E8).
+    assert (Hera : orel ERw (assign_value lv v)) by apply er_assign.
+    destruct (er_ok _ _ _ _ Hera Hwf2 E7) as (Hwf4 & _). pose proof (er_room _ _ _ _ Hera Hwf2 E7) as R4.
+    destruct (bind_ok_inv _ _ _ _ _ E8) as (c & s5 & E9 & E10).
+    pose proof (er_room _ _ _ _ (er_accept TComma) Hwf4 E9) as R5.
+    destruct c; inversion E10; subst. lia.
+  Qed.
+
+  Lemma T_print : T g (evaluate_print_statement fuel nest).
+  Proof.
+    unfold evaluate_print_statement. apply T_bind; [| intros [semi text]; T_prim_leaf].
+    apply T_loop; [exact Hg | intros [semi text]; T_walk leaf |].
+    intros [semi text] s acc' s' Hwf E.
+    destruct (bind_ok_inv _ _ _ _ _ E) as (t & s1 & E1 & E2).
+    rewrite (peek_eq s (wf_loc _ Hwf)) in E1. inversion E1; subst t s1. clear E1.
+    assert (Hwfb : wf (bump s)) by (revert Hwf; apply wf_ext; reflexivity).
+    destruct (nth_error (cur_toks s) (loc_idx (loc s))) as [tk|] eqn:En; [|inversion E2].
+    assert (Hnext : forall x s2, (next_token ;;; ret (@inl (bool * bytes) (bool * bytes) x)) (bump s) = (Ok (inl acc'), s2) -> room s2 < room s).
+    { intros x s2 F. destruct (bind_ok_inv _ _ _ _ _ F) as (r & s3 & F1 & F2). inversion F2; subst.
+      rewrite (next_token_w (bump s) Hwfb) in F1. change (cur_toks (bump s)) with (cur_toks s) in F1.
+      change (loc_idx (loc (bump s))) with (loc_idx (loc s)) in F1. rewrite En in F1. inversion F1; subst.
+      apply (room_step (bump s) tk). exact En. }
+    assert (Hexpr : forall (k : value -> (bool * bytes) + (bool * bytes)) s2,
+              (v <- expr fuel nest ;; ret (k v)) (bump s) = (Ok (inl acc'), s2) -> room s2 < room s).
+    { intros k s2 F. destruct (bind_ok_inv _ _ _ _ _ F) as (v & s3 & F1 & F2). inversion F2; subst.
+      apply (consumes_expr (bump s) v s2 Hwfb F1). }
+    destruct tk; try (inversion E2; fail); try (eapply Hnext; exact E2); try (eapply Hexpr; exact E2).
+  Qed.
+
+  Lemma T_def : T g (evaluate_def_statement fuel).
+  Proof.
+    unfold evaluate_def_statement.
+    apply T_bind; [T_prim_leaf | intros t]. destruct t as [t|]; [|apply T_fail]. destruct t as [| | | | | | | | | | | | | | | | | | | | | | | | | | | | | | | | | | | | | | |fname| | | | ] ; try apply T_fail.
+    apply T_bind; [T_prim_leaf | intros _].
+    apply T_bind.
+    - apply T_loop; [exact Hg | intro; T_walk leaf |].
+      intros acc st0 acc' s' Hwf E.
+      destruct (bind_ok_inv _ _ _ _ _ E) as (a & s1 & E1 & E2).
+      destruct a as [a|]; [|inversion E2]. destruct (next_token_some st0 a s1 Hwf E1) as (Hwf1 & R1 & _).
+      destruct a; try (inversion E2; fail).
+      destruct (bind_ok_inv _ _ _ _ _ E2) as (d & s2 & E3 & E4).
+      pose proof (er_room _ _ _ _ er_next_token Hwf1 E3) as R2.
+      destruct d as [d|]; [|inversion E4]. destruct d; inversion E4; subst. lia.
+    - intros args. apply T_bind; [T_prim_leaf | intros _]. apply T_bind; [T_prim_leaf | intros _].
+      apply T_loop; [exact Hg | intro; T_walk leaf |].
+      intros u st0 u' s' Hwf E.
+      destruct (bind_ok_inv _ _ _ _ _ E) as (t & s1 & E1 & E2).
+      destruct t as [t|]; [|inversion E2]. destruct (next_token_some st0 t s1 Hwf E1) as (Hwf1 & R1 & _).
+      destruct t; inversion E2; subst; exact R1.
+  Qed.
+
+  Lemma T_is_else : T g is_else_of_then_clause.
+  Proof.
+    apply T_intro_er; [intros s _ _; apply nofR_is_else | apply er_is_else].
+  Qed.
+
+  Lemma T_get_line_number : T g get_line_number.
+  Proof. apply T_intro_er; [intros s _ _; apply nofR_get_line_number | apply er_get_line_number]. Qed.
+
+  Lemma T_statement_body : T g (evaluate_statement_body fuel nest rec).
+  Proof.
+    unfold evaluate_statement_body.
+    T_walk ltac:(first [ apply T_break | apply T_dim | apply T_print | apply T_input | apply T_if | apply T_goto_stmt
+                       | apply T_gosub_stmt | apply T_for | apply T_next_stmt | apply T_def | apply T_read | apply T_let
+                       | apply T_assignment | apply T_is_else | apply T_get_line_number | leaf ]).
+  Qed.
+End StmtT.
+
+Lemma T_evaluate_statement : forall fuel n g, n <= max_nesting -> g + (max_nesting - n) < fuel ->
+  T g (evaluate_statement fuel n).
+Proof.
+  induction fuel as [|f IH]; intros n g Hn Hc; [lia|]. cbn [evaluate_statement].
+  destruct (Nat.eqb_spec n max_nesting) as [->|Hne]; [apply T_fail|].
+  apply T_statement_body; [apply IH; lia | lia|]. apply T_evaluate_expression; lia.
+Qed.
+
+(* ------------------------------------------------------------------ *)
+(* 7. host calls *)
+
+Definition call_bound (s : interp) : nat := lim s + max_nesting.
+
+Lemma T_run_next_statement fuel g : g + max_nesting < fuel -> T g (run_next_statement fuel).
+Proof.
+  intros Hf. unfold run_next_statement, return_to_idle_state.
+  apply T_bind; [apply T_prim; [apply nofR_modify | | ] | intros _].
+  - apply sr_of_er. intros s Hwf. cbn [fst snd forget modify]. apply ER_frame; auto; reflexivity.
+  - apply (mrel_modify IM). intros s. unfold IM. apply le_n.
+  - apply T_bind; [T_prim_leaf | intros h].
+    apply T_bind; [destruct h; [apply T_evaluate_statement; lia | apply T_ret] | intros _].
+    apply T_bind; [T_prim_leaf | intros h2]. destruct h2; [apply T_ret|].
+    apply T_bind; [T_prim_leaf | intros n0]. destruct n0; [apply T_ret|].
+    apply T_bind; [T_prim_leaf | intros _].
+    apply T_prim; [apply nofR_modify | | apply (mrel_modify IM); intros s; unfold IM; apply le_n].
+    apply sr_of_er. intros s Hwf. cbn [fst snd forget modify]. apply ER_frame; auto; reflexivity.
+Qed.
+
+(* the call that continues a running program hands control back *)
+Theorem continue_returns fuel s :
+  wf s -> call_bound s < fuel -> fst (continue_evaluating fuel s) <> OutOfFuel.
+Proof.
+  intros Hwf Hf. unfold continue_evaluating. destruct (state s); try discriminate.
+  destruct (T_run_next_statement fuel (lim s) Hf s Hwf (le_n _)) as [H _].
+  destruct (run_next_statement fuel s) as [[u|e l|p| |] s1]; cbn [postprocess fst] in *; try discriminate; congruence.
+Qed.
+
+(* the calls that start evaluation: a command, an edit, or a direct-mode line *)
+From Abasic Require Import Proofs.LexerRanges.
+Local Open Scope nat_scope.
+
+Lemma ranges_count lo hi ts : ranges_ok lo hi ts -> lo <= hi -> length ts <= hi - lo.
+Proof.
+  revert lo; induction ts as [|[t [a b]] ts IH]; intros lo H Hle; [cbn [length]; lia|].
+  cbn [ranges_ok] in H. destruct H as (H1 & H2 & H3 & H4). pose proof (IH b H4 H3) as IH'. cbn [length]. lia.
+Qed.
+
+Lemma tokens_count line skip ts : skip <= length line -> tokenize line skip = TokOk ts -> length (map fst ts) <= length line.
+Proof.
+  intros Hs H. rewrite map_length. pose proof (tokenize_ranges_ok line skip ts Hs H) as Hr.
+  pose proof (ranges_count _ _ _ Hr Hs) as H0. eapply Nat.le_trans; [exact H0 | apply Nat.le_sub_l].
+Qed.
+
+Definition start_bound (s : interp) (line : bytes) : nat :=
+  Nat.max (longest (st_toks s)) (length line) + max_nesting.
+
+Lemma modify_wf_T g f :
+  (forall s, wf s -> wf (f s)) -> (forall s, lim (f s) <= lim s) -> T g (modify f).
+Proof.
+  intros H1 H2 s Hwf Hg. split; [discriminate|]. intros a _. split; [apply H1, Hwf | apply H2].
+Qed.
+
+Lemma lim_imm_reset s : lim (imm_reset [] s) <= lim s.
+Proof. unfold lim, imm_reset. destruct (breakpoint s); cbn; lia. Qed.
+
+Lemma list_lines_nof ks T0 : list_lines ks T0 <> OutOfFuel.
+Proof.
+  induction ks as [|k ks IH]; cbn [list_lines]; [discriminate|].
+  destruct (toks_get k T0); [|discriminate]. destruct (list_lines ks T0); try discriminate. congruence.
+Qed.
+
+Lemma T_process_command fuel g c : g + max_nesting < fuel -> T g (process_command fuel c).
+Proof.
+  intros Hf. destruct c; cbn [process_command].
+  - (* RUN *)
+    apply T_bind; [apply modify_wf_T; [intros s H; revert H; apply wf_ext; reflexivity | intros s; apply le_n] | intros _].
+    apply T_bind; [apply modify_wf_T; [intros s H; revert H; apply wf_ext; reflexivity | intros s; apply le_n] | intros _].
+    apply T_bind; [apply modify_wf_T; [intros s H; apply wf_set_arrays; [exact H | constructor] | intros s; apply le_n] | intros _].
+    apply T_bind; [apply T_prim; [apply nofR_run_from_first | apply sr_run_from_first | apply imm_run_from_first] | intros _].
+    apply T_run_next_statement, Hf.
+  - (* LIST *)
+    apply T_bind.
+    + apply T_intro; [intros s _ _; cbn [fst]; apply list_lines_nof | apply sr_list | intros s; unfold IM; apply le_n].
+    + intros ls. apply modify_wf_T; [intros s H; revert H; apply wf_ext; reflexivity | intros s; apply le_n].
+  - apply modify_wf_T; [intros s H; revert H; apply wf_ext; reflexivity | intros s; apply le_n].
+  - (* CONT *)
+    apply T_bind; [apply T_prim; [apply nofR_continue_bp | apply sr_continue_bp | apply imm_continue_bp] | intros _].
+    apply T_run_next_statement, Hf.
+  - apply modify_wf_T; [intros s H; revert H; apply wf_ext; reflexivity | intros s; apply le_n].
+  - apply modify_wf_T; [intros s H; revert H; apply wf_ext; reflexivity | intros s; apply le_n].
+  - T_prim_leaf.
+  - T_prim_leaf.
+Qed.
+
+Lemma nofR_set_numbered_line n ts : nofR (set_numbered_line n ts).
+Proof. unfold set_numbered_line. autounfold with prims. nofr_walk nl4. Qed.
+
+Theorem start_returns fuel line s :
+  wf s -> start_bound s line < fuel -> fst (start_evaluating fuel line s) <> OutOfFuel.
+Proof.
+  intros Hwf Hf. unfold start_evaluating.
+  assert (H : fst (evaluate_impl fuel line s) <> OutOfFuel).
+  { unfold evaluate_impl. rewrite bind_get. destruct (state s); try discriminate.
+    rewrite set_imm_is_modify, bind_modify.
+    pose proof (wf_imm_reset [] s Hwf) as Hwf0. pose proof (lim_imm_reset s) as Hl0.
+    set (s0 := imm_reset [] s) in *.
+    assert (Hlong : longest (st_toks s0) = longest (st_toks s)).
+    { unfold s0, imm_reset. destruct (breakpoint s); reflexivity. }
+    assert (Himm0 : immediate s0 = []) by (unfold s0, imm_reset; destruct (breakpoint s); reflexivity).
+    unfold start_bound in Hf.
+    destruct (command_of line) as [c|].
+    - apply (T_process_command fuel (lim s0) c); [|exact Hwf0|apply le_n].
+      unfold lim. rewrite Hlong, Himm0. cbn [length]. lia.
+    - destruct (match parse_line_number line with Some (n, e) => (Some n, e) | None => (None, 0) end) as [num skip] eqn:Ep.
+      assert (Hskip : skip <= length line).
+      { destruct (parse_line_number line) as [[n e]|] eqn:E; inversion Ep; subst; [|lia].
+        unfold parse_line_number in E. destruct (digit_run (skipn (skip_ascii_ws line) line)) as [|d ds] eqn:Ed; [discriminate|].
+        destruct (digits_value (d :: ds) <=? U64_MAX)%N; inversion E; subst.
+        assert (Hw : skip_ascii_ws line <= length line).
+        { clear. induction line as [|b l IH]; cbn [skip_ascii_ws length]; [lia|]. destruct (is_ascii_ws b); lia. }
+        assert (Hd : length (digit_run (skipn (skip_ascii_ws line) line)) <= length (skipn (skip_ascii_ws line) line)).
+        { generalize (skipn (skip_ascii_ws line) line). clear. intros l. induction l as [|b l IH]; cbn [digit_run length]; [lia|].
+          destruct (is_digit b); cbn [length]; lia. }
+        rewrite Ed in Hd. rewrite skipn_length in Hd. cbn [length] in *. lia. }
+      destruct (tokenize line skip) as [ts|ts e] eqn:Et; [|discriminate].
+      destruct num as [n|].
+      + apply nofR_set_numbered_line.
+      + rewrite set_imm_is_modify, bind_modify.
+        pose proof (wf_imm_reset (map fst ts) s0 Hwf0) as Hwf1.
+        pose proof (tokens_count line skip ts Hskip Et) as Hc.
+        assert (Hl1 : lim (imm_reset (map fst ts) s0) <= Nat.max (longest (st_toks s)) (length line)).
+        { unfold lim, imm_reset. destruct (breakpoint s0); cbn [st_toks immediate set_loc set_immediate set_stack];
+            rewrite Hlong; lia. }
+        apply (T_run_next_statement fuel (Nat.max (longest (st_toks s)) (length line)) ltac:(lia) _ Hwf1 Hl1). }
+  destruct (evaluate_impl fuel line s) as [[u|e l|p| |] s1]; cbn [postprocess fst] in *; try discriminate; congruence.
+Qed.
